@@ -122,7 +122,33 @@ struct AexSim {
               uint8_t other[32]; memcpy(other, m.bytes.data() + 32, 32); other[7] ^= 0x10;
               int vo = L01(secp256k1_ecdsa_s2c_verify_commit(dctx, &sig2, other, &op2));
               r.cmp();
-              if (!vc || vo) { r.violate("C15", "verify_commit", "secp256k1_ecdsa_s2c_verify_commit", std::string("verify_commit ") + (vc ? "accepted another datum" : "rejected the committed datum")); return; } }
+              if (!vc || vo) { r.violate("C15", "verify_commit", "secp256k1_ecdsa_s2c_verify_commit", std::string("verify_commit ") + (vc ? "accepted another datum" : "rejected the committed datum")); return; }
+              // the host's hash commitment and the commitment check are the documented functions (reference model)
+              { uint8_t mc[32]; ref::s2c_host_commit(m.bytes.data() + 32, mc); r.cmp();
+                if (memcmp(mc, c, 32) != 0) { r.violate("C15", "host_commit_differs_from_model", "secp256k1_ecdsa_anti_exfil_host_commit", "host commitment is not the tagged hash of the randomness"); return; } }
+              r.cmp();
+              if (!ref::s2c_verify_commit(sb2, m.bytes.data() + 32, ob2)) { r.violate("C15", "verify_commit_model", "secp256k1_ecdsa_s2c_sign", "signature and opening do not satisfy r = x(R0 + H(R0 || datum) G) in the reference model"); return; }
+              // single-bit mutations of datum, r and opening, positions spread over the whole width (taken from the message bytes so
+              // that a run is a function of its plan): each must be rejected, by the library and by the model alike
+              for (int k = 0; k < 8; k++) {
+                  uint8_t d2[32], s2[64], o2[33]; memcpy(d2, m.bytes.data() + 32, 32); memcpy(s2, sb2, 64); memcpy(o2, ob2, 33);
+                  unsigned sel = m.bytes[k] ^ m.bytes[32 + k];
+                  const char *what;
+                  if (k < 4) { unsigned bit = 64 * k + (sel & 63); d2[bit >> 3] ^= (uint8_t)(1u << (bit & 7)); what = "datum"; }
+                  else if (k < 6) { unsigned bit = 128 * (k - 4) + (sel & 127); s2[bit >> 3] ^= (uint8_t)(1u << (bit & 7)); what = "r"; }
+                  else { unsigned bit = k == 6 ? (sel & 7) : 8 + (sel % 256); o2[bit >> 3] ^= (uint8_t)(1u << (bit & 7)); what = "opening"; }
+                  secp256k1_ecdsa_signature sg; secp256k1_ecdsa_s2c_opening oo;
+                  MonMark mk2 = mon_mark();
+                  int lp = L01(secp256k1_ecdsa_signature_parse_compact(dctx, &sg, s2)) && L01(secp256k1_ecdsa_s2c_opening_parse(dctx, &oo, o2));
+                  int lv = lp && L01(secp256k1_ecdsa_s2c_verify_commit(dctx, &sg, d2, &oo));
+                  bool r_in_range = ref::scalar_from_be_reduce(s2) == ref::U256::from_be(s2);
+                  bool mv = r_in_range && ref::s2c_verify_commit(s2, d2, o2);
+                  r.cmp();
+                  if (!mon_quiet_since(mk2)) { r.violate("C15", "callback", "secp256k1_ecdsa_s2c_verify_commit", "callback on a mutated but parsed input"); return; }
+                  if (lv) { r.violate("C15", "verify_commit", "secp256k1_ecdsa_s2c_verify_commit", std::string("verify_commit accepted a single-bit mutation of the ") + what + " (bit selector " + std::to_string(sel) + ", step " + std::to_string(k) + ")"); return; }
+                  if ((lv != 0) != mv) { r.violate("C15", "verify_commit_model", "secp256k1_ecdsa_s2c_verify_commit", std::string("library and model disagree on a mutated ") + what); return; }
+                  r.probe(std::string("mutated_") + what + "_rejected");
+              } }
             // low-S, valid under the model
             r.cmp();
             if (!ref::ecdsa_verify(pkpt, m.bytes.data(), sb, sb + 32)) { r.violate("C15", "invalid_signature", "secp256k1_anti_exfil_sign", "signature is not a valid low-S ECDSA signature in the reference model (msg " + hex(m.bytes.data(), 32) + ")"); return; }
